@@ -217,6 +217,11 @@ def apply_redis(sut, ref, op, kind):
         return ("raises-%s" % type(e).__name__, "%r raised %s: %s" % (op, type(e).__name__, e))
     return None
 
+def _unlisted(findings):
+    """Signatures among the findings so far that are not recorded known findings (those also occur on the unchanged tree)."""
+    known = common.load_known()
+    return [sig for sig in findings if not any(common.known_match(k, PROP, sig) for k in known)]
+
 def bfs_redis(kind, tier, config="symmetric"):
     global KEYS, CAP, MAXQ
     if config == "asymmetric":
@@ -251,8 +256,8 @@ def bfs_redis(kind, tier, config="symmetric"):
     t_start = time.time()
     while frontier:
         nxt = []
-        if findings and time.time() - t_start > 150:
-            # a store that already disagrees with the reference is not searched to the bitter end (a defect that lets values pile up
+        if time.time() - t_start > 150 and _unlisted(findings):
+            # a store that already disagrees with the reference (beyond the recorded known findings) is not searched to the bitter end (a defect that lets values pile up
             # makes the state space unbounded): reported as capped, the counter-examples found stand
             capped = True
             break
